@@ -47,7 +47,8 @@ type scheduler struct {
 	log    []SchedEvent
 	keepLog bool
 	// optional hook: called at every point with the running thread; used by state-keyed searches
-	OnPoint func(tid int, op int, obj unsafe.Pointer)
+	OnPoint  func(tid int, op int, obj unsafe.Pointer)
+	poolOnly string
 }
 
 // SchedEvent is one performed visible operation.
@@ -62,6 +63,11 @@ var sch scheduler
 type SchedConfig struct {
 	Mutex, Atomic, Pool bool
 	KeepLog             bool
+	// PoolOnly, when non-empty, restricts pool scheduling points to pools whose element type name
+	// contains it (e.g. "Result"); PoolPutOnly drops the Get points.
+	PoolOnly    string
+	PoolPutOnly bool
+	PoolGetOnly bool
 }
 
 // RunThreads runs the bodies as scheduler-controlled threads and returns when all have finished.
@@ -92,14 +98,14 @@ func RunThreads(cfg SchedConfig, bodies ...func()) (panics []any, deadlock strin
 
 //go:norace
 func schedInit(cfg SchedConfig, n int) {
-	sch = scheduler{cur: -1, active: true, keepLog: cfg.KeepLog}
+	sch = scheduler{cur: -1, active: true, keepLog: cfg.KeepLog, poolOnly: cfg.PoolOnly}
 	sch.points[opStart] = true
 	sch.points[opLock] = cfg.Mutex
 	sch.points[opUnlock] = cfg.Mutex
 	sch.points[opLoad] = cfg.Atomic
 	sch.points[opStore] = cfg.Atomic
-	sch.points[opPoolGet] = cfg.Pool
-	sch.points[opPoolPut] = cfg.Pool
+	sch.points[opPoolGet] = cfg.Pool && !cfg.PoolPutOnly
+	sch.points[opPoolPut] = cfg.Pool && !cfg.PoolGetOnly
 	sch.points[opUser] = true
 	for i := 0; i < n; i++ {
 		sch.threads = append(sch.threads, &thread{id: i, wake: make(chan struct{}, 1), pendOp: opStart})
@@ -164,6 +170,13 @@ func Yield() { yield(opUser, nil) }
 func yield(op int, obj unsafe.Pointer) {
 	if !sch.active || sch.cur < 0 || !sch.points[op] {
 		return
+	}
+	if sch.poolOnly != "" && (op == opPoolGet || op == opPoolPut) {
+		p := (*Pool)(obj)
+		p.register()
+		if !containsStr(p.name, sch.poolOnly) {
+			return
+		}
 	}
 	me := sch.cur
 	t := sch.threads[me]
@@ -384,3 +397,12 @@ func (v *Value) store(x any) { v.v = x }
 //
 //go:norace
 func (v *Value) Reset() { v.v = nil }
+
+func containsStr(s, sub string) bool {
+	for i := 0; i+len(sub) <= len(s); i++ {
+		if s[i:i+len(sub)] == sub {
+			return true
+		}
+	}
+	return false
+}
